@@ -150,6 +150,14 @@ PROPS["C46"] = dict(
     units=[U("inpkg", "rueidis", "TestVerif_C46_Scanner", T(20000), T(200000, shards=16))],
 )
 
+PROPS["C08"] = dict(
+    level="exploration",
+    technique="property-based testing (rapid): pairs of cacheable commands from a reflection walk of all Cache() builders, re-split Arbitrary commands and scripts; injectivity oracle on the cache identity used by the built-in store and by NewSimpleCacheAdapter",
+    level_text="Generated pairs of different cacheable commands (same builder path with arguments from a tiny alphabet, byte-preserving re-splits, scripts) must map to different cache identities. The known separator-less concatenation collisions are counted and skipped; any other collision still fails.",
+    level_note="Checks the identity functions (cmds.CacheKey and the adapter's key+cmd), which decide entry sharing; the consequence (a hit returning the other command's reply) follows from lru.Flight/adapter.Flight addressing by exactly these strings. " + LIMITS,
+    units=[U("inpkg", "internal/cmds", "TestVerif_C08_CacheIdentity", T(20000), T(200000, shards=16))],
+)
+
 # ---- END PROPS (new entries go above this line)
 
 # every property without a check is listed here with its reason (kept current while building)
